@@ -297,6 +297,30 @@ fn gen_case(rng: &mut Rng) -> Case {
     }
 }
 
+/// A message that, while being formatted, encodes another record through the same JSON encoder into its own
+/// buffer, then writes its pieces.
+struct NestingPieces<'a> {
+    enc: &'a JsonEncoder,
+    pieces: &'a [String],
+    inner: std::cell::RefCell<Option<Result<Vec<u8>, String>>>,
+}
+
+impl<'a> std::fmt::Display for NestingPieces<'a> {
+    fn fmt(&self, f: &mut std::fmt::Formatter<'_>) -> std::fmt::Result {
+        let mut w = CapW::new();
+        let r = self.enc.encode(&mut w, &Record::builder().level(log::Level::Warn).target("nested")
+            .args(format_args!("nested {} é", 1)).build());
+        *self.inner.borrow_mut() = Some(match r {
+            Ok(()) => Ok(w.bytes),
+            Err(e) => Err(e.to_string()),
+        });
+        for p in self.pieces {
+            f.write_str(p)?;
+        }
+        Ok(())
+    }
+}
+
 fn check_case(rep: &mut Report, rng: &mut Rng, c: &Case, thread_name: Option<&str>) {
     log_mdc::clear();
     for (k, v) in &c.mdc {
@@ -316,8 +340,11 @@ fn check_case(rep: &mut Report, rng: &mut Rng, c: &Case, thread_name: Option<&st
         rep.count("records_preceded_by_a_failed_encode", 1);
     }
     let t0 = Utc::now();
+    let nesting = rng.chance(1, 10);
+    let nest = NestingPieces { enc: &enc, pieces: &pieces, inner: Default::default() };
     let r = trap::catch(|| {
         let p = Pieces(&pieces);
+        let d: &dyn std::fmt::Display = if nesting { &nest } else { &p };
         enc.encode(
             &mut w,
             &Record::builder()
@@ -326,11 +353,31 @@ fn check_case(rep: &mut Report, rng: &mut Rng, c: &Case, thread_name: Option<&st
                 .module_path(c.module.as_deref())
                 .file(c.file.as_deref())
                 .line(c.line)
-                .args(format_args!("{}", p))
+                .args(format_args!("{}", d))
                 .build(),
         )
     });
     let t1 = Utc::now();
+    if nesting {
+        rep.count("records_whose_message_encodes_another_record", 1);
+        if let Some(inner) = nest.inner.borrow().clone() {
+            let what = match &inner {
+                Err(e) => Some(format!("nested encode returned an error: {}", e)),
+                Ok(b) => {
+                    let one_line = b.last() == Some(&b'\n') && b.iter().filter(|x| **x == b'\n').count() == 1;
+                    match parse_json(&b[..b.len().saturating_sub(1)]) {
+                        _ if !one_line => Some(format!("nested record is not one line ending in a newline: {:?}", String::from_utf8_lossy(b))),
+                        Err(e) => Some(format!("nested record is not a JSON value: {}", e)),
+                        Ok(_) => None,
+                    }
+                }
+            };
+            if let Some(what) = what {
+                rep.violation("C12:record-encoded-while-another-is-being-encoded", json!({"what": what, "outer_message": c.message}));
+                return;
+            }
+        }
+    }
     log_mdc::clear();
     let desc = json!({"message": c.message, "target": c.target, "module_path": c.module, "file": c.file, "line": c.line,
         "level": c.level.to_string(), "mdc": c.mdc, "thread": thread_name});
